@@ -862,6 +862,10 @@ def run_replay(R, obj):
     data = stored_bytes(obj)
     res = evaluate(R, data, obj.get('io_fault'), obj.get('entry', 'path'), path=obj.get('sim_path'))
     out = list(res['viol'])
+    if not out and (obj.get('violation') or {}).get('cls') == 'hang':
+        # a step-budget verdict is only observable under the step clock (a seeded 1-3 % of the reads run under it)
+        res = evaluate(R, data, obj.get('io_fault'), obj.get('entry', 'path'), clock=True, path=obj.get('sim_path'))
+        out = list(res['viol'])
     red = None
     if obj.get('reduced_b64') is not None:
         rd = base64.b64decode(obj['reduced_b64'])
